@@ -45,6 +45,10 @@ Qed.
 Theorem fixed_arms_only : forall t p is_start ch,
   existsb (Z.eqb ch) [83; 84; 64; 80; 76; 77; 89; 90; 107; 65; 98] = false -> fst (csi_final_c t p is_start ch) = csi_final t p is_start ch.
 Proof. exact fixed_arms_only_l. Qed.
+(* the same for the `CSI .. SP <final>` group: outside SL / SR the outcome IS the one of the character-level model (SP D, SP d, error) *)
+Theorem sp_arms_only : forall inv t p ch, (ch =? 65) || (ch =? 64) = false -> st p = SEndCsi 32 ->
+  fst (csi_sp_c t p ch) = astep_gen inv (mkA t p) ch.
+Proof. exact sp_arms_only_l. Qed.
 
 (* ---- known class REP: the work is linear in the parameter ------------------------------------------------------------------------------ *)
 Theorem rep_linear : forall t c n, (exists t', fst (rep_c t c n) = ROk t') -> iters (snd (rep_c t c n)) = Z.max 0 n.
